@@ -319,6 +319,10 @@ func (h *Hub) prepareConnectionInitation(ski string, counter int, entry *api.Mdn
 	// check if the current counter is still the same, otherwise this counter is irrelevant
 	currentCounter, exists := h.getCurrentConnectionAttemptCounter(ski)
 	if !exists || currentCounter != counter {
+		// this attempt is dropped, but while it was pending it made
+		// coordinateConnectionInitations ignore every mDNS report for this SKI
+		// (e.g. the one requested when its connection got closed): look again
+		h.checkAutoReannounce()
 		return
 	}
 
